@@ -27,7 +27,8 @@ TECHNIQUE = 'exhaustive exploration of joint outcome sequences of linker + submo
 RULE = ('linkers over 0..2/3 scripted submodels x selections (None, all ordered subsets, unknown id) x min_iter<=max_iter<=3 x failures x '
         'tol in {0.5, 4} (submodels and linker carry an unchecked endogenous variable that never settles) x all joint outcome sequences over {c,m} with single deviations to {exactly tol, negative, 0.75 tol}; '
         'states = distinct (selection, options) configurations, transitions = linker solve_t calls, traces = runs compared with the reference loop; '
-        'plus construction over 0..3 submodels with lag/lead lengths and spans that differ in start or in length. non-trivial = at least one iteration executed or a rejection checked')
+        'plus construction over 0..3 submodels with lag/lead lengths and spans that differ in start or in length. non-trivial = at least one iteration executed or a rejection checked'
+        " Offsets with a linker pre-solution hook that writes endogenous values; spans equal in length and end points only; every joint script (max_iter >= 2) again with the linker's movement made in evaluate_t_before and through solve_period.")
 ASSUMPTIONS = [
     'scripted steps are exact binary fractions; reference loop written from the statement',
     'linker.solve_t with min_iter > max_iter is not demanded to raise (statement is silent for the linker)',
@@ -77,13 +78,20 @@ class Lk(BaseLinker):
 
     def evaluate_t_before(self, t, **kw):
         LOG.append(('pre', kw.get('iteration')))
+        d = self.__dict__
+        if d.get('pre_moves'):
+            # the linker's own check variable is moved by the code that runs BEFORE the submodels (it counts as this iteration's movement)
+            o = d['script'][d['n']] if d['n'] < len(d['script']) else 'c'
+            d['n'] += 1
+            self._L[t] += step(o, d['tol'])
 
     def evaluate_t_after(self, t, **kw):
         d = self.__dict__
         LOG.append(('post', kw.get('iteration')))
-        o = d['script'][d['n']] if d['n'] < len(d['script']) else 'c'
-        d['n'] += 1
-        self._L[t] += step(o, d['tol'])
+        if not d.get('pre_moves'):
+            o = d['script'][d['n']] if d['n'] < len(d['script']) else 'c'
+            d['n'] += 1
+            self._L[t] += step(o, d['tol'])
         self._M[t] -= 100.0
         # the linker's own code may write to submodels it was not asked to solve: their check variables are NOT part of the convergence test
         sel = kw.get('submodels')
@@ -122,10 +130,15 @@ def run_scripted_case(case):
     unknown = sel is not None and any(x not in IDS[:nsub] for x in sel)
     seld = IDS[:nsub] if sel is None else [x for x in sel if x in IDS[:nsub]]
     lk, subs = make(nsub, scripts, tol, seld)
+    if case.get('pre_moves'):
+        lk.__dict__['pre_moves'] = True
     del LOG[:]
     t = case.get('t', 1)
     pos = t % 4
-    res, cause, _ = refsolve.call_outcome(lk.solve_t, t, submodels=sel, min_iter=min_iter, max_iter=max_iter, tol=tol, failures=failures)
+    if case.get('entry') == 'solve_period':
+        res, cause, _ = refsolve.call_outcome(lk.solve_period, list(lk.span)[pos], submodels=sel, min_iter=min_iter, max_iter=max_iter, tol=tol, failures=failures)
+    else:
+        res, cause, _ = refsolve.call_outcome(lk.solve_t, t, submodels=sel, min_iter=min_iter, max_iter=max_iter, tol=tol, failures=failures)
     out = []
     if unknown:
         if res != 'KeyError':
@@ -237,6 +250,20 @@ def run_scripted(block, tier, acc):
                         acc.nontrivial += 1
                         for key, exp, obs, what in v:
                             acc.violation(key, case, exp, obs, what)
+                        if max_iter >= 2 and failures == 'ignore' and min_iter == 0:
+                            # the same joint script with the linker's own movement made by its pre-evaluation code, and through solve_period
+                            for extra, tag in ((dict(pre_moves=True), 'linker-moves-before-submodels'), (dict(entry='solve_period'), 'solve_period')):
+                                case2 = dict(case, **extra)
+                                acc.evaluations += 1
+                                try:
+                                    with guard(5):
+                                        v = run_scripted_case(case2)
+                                except CaseTimeout:
+                                    acc.violation('timeout', case2, 'termination', 'timeout')
+                                    continue
+                                acc.nontrivial += 1
+                                for key, exp, obs, what in v:
+                                    acc.violation(key + ':' + tag, case2, exp, obs, what)
     acc.sample({'nsub': nsub, 'sel': sel, 'max_iter': 2, 'scripts': [['m', 'c']] * n_actors}, limit=2)
     acc.outcome(('sel', repr(sel)))
 
